@@ -199,7 +199,7 @@ def serve_wsgi(app, env):
 
 # ------------------------------------------------------------------ ASGI monitor
 
-async def serve_asgi(app, method, fail_at):
+async def serve_asgi(app, method, fail_at, disconnect=None):
     """The server side of the ASGI HTTP protocol: checks event shapes and ordering itself."""
     scope = {'type': 'http', 'asgi': {'version': '3.0', 'spec_version': '2.1'}, 'http_version': '1.1',
              'method': method, 'scheme': 'http', 'path': '/', 'raw_path': b'/', 'query_string': b'',
@@ -209,11 +209,18 @@ async def serve_asgi(app, method, fail_at):
     state = {'n': 0, 'received': False}
     never = asyncio.Event()
     parked = asyncio.Event()
+    gone = asyncio.Event()          # the client disconnected
+    more_sent = {'n': 0}
+    if disconnect == 0:
+        gone.set()
 
     async def receive():
         if not state['received']:
             state['received'] = True
             return {'type': 'http.request', 'body': b'', 'more_body': False}
+        if disconnect is not None:
+            await gone.wait()
+            return {'type': 'http.disconnect'}
         await never.wait()
 
     async def send(ev):
@@ -240,6 +247,14 @@ async def serve_asgi(app, method, fail_at):
             if type(b) is not bytes:
                 raise ProtocolError('body %r' % type(b))
             events.append(['body', b, bool(ev.get('more_body', False))])
+            if disconnect is not None:
+                if ev.get('more_body', False):
+                    more_sent['n'] += 1
+                if more_sent['n'] >= disconnect:
+                    gone.set()
+                # a real server suspends here: the disconnect watcher gets to run
+                await asyncio.sleep(0)
+                await asyncio.sleep(0)
         else:
             raise ProtocolError('event type %r' % t)
     raised = False
@@ -256,7 +271,13 @@ async def serve_asgi(app, method, fail_at):
             raised = True
     else:
         try:
-            await app(scope, receive, send)
+            if disconnect is not None:
+                try:
+                    await asyncio.wait_for(app(scope, receive, send), 5)
+                except asyncio.TimeoutError:
+                    raise ProtocolError('the app goes on emitting after http.disconnect')
+            else:
+                await app(scope, receive, send)
         except SCRIPTED:
             raised = True
     # tasks the app left behind (the SSE disconnect watcher when the app was interrupted)
@@ -396,13 +417,53 @@ class Env:
                 resp.stream, env.script = mk(kind, chunks, raises, has_close)
             if c['sse'] is not None:
                 async def emitter():
-                    for e in c['sse']:
-                        yield None if e is None else falcon.asgi.SSEvent(**e)
+                    while True:
+                        for e in c['sse']:
+                            yield None if e is None else falcon.asgi.SSEvent(**e)
+                        if not (c.get('sse_infinite') and c['sse']):
+                            break
                 resp.sse = emitter()
             if c['clen'] is not None:
                 resp.set_header('Content-Length', c['clen'])
             if c['ctype'] is not None:
                 resp.content_type = c['ctype']
+            mf = c.get('media_fail')
+            if mf == 'object':
+                resp.media = object()
+            elif mf == 'ctype':
+                resp.media = {'k': 1}
+                resp.content_type = 'application/x-unknown'
+            elif mf == 'handler':
+                resp.media = {'k': 1}
+                resp.content_type = 'application/x-fail'
+
+        def recover(resp):
+            rc = env.cell['recovery']
+            resp.status = status_value(rc['status'])
+            if rc['text'] is not None:
+                resp.text = rc['text']
+            if rc['data'] is not None:
+                resp.data = rc['data']
+            if rc['media'] is not None:
+                resp.media = object() if rc['media_fails'] else rc['media']
+            if rc['ctype'] is not None:
+                resp.content_type = rc['ctype']
+
+        class FailHandler(falcon.media.BaseHandler):
+            def serialize(self, media, content_type):
+                raise RuntimeError('scripted serializer failure')
+
+            async def serialize_async(self, media, content_type):
+                raise RuntimeError('scripted serializer failure')
+
+            def deserialize(self, stream, content_type, content_length):
+                raise NotImplementedError
+
+        def h_sync(req, resp, ex, params):
+            recover(resp)
+
+        async def h_async(req, resp, ex, params):
+            recover(resp)
 
         class Res:
             def on_get(self, req, resp):
@@ -445,15 +506,21 @@ class Env:
         self.apps = {}
         for asgi in (0, 1):
             for custom in (0, 1):
-                if asgi:
-                    app = falcon.asgi.App(response_type=MyAResp, middleware=[ALateMW()]) if custom \
-                        else falcon.asgi.App(middleware=[ALateMW()])
-                    app.add_route('/', ARes())
-                else:
-                    app = falcon.App(response_type=MyResp, middleware=[LateMW()]) if custom \
-                        else falcon.App(middleware=[LateMW()])
-                    app.add_route('/', Res())
-                self.apps[(asgi, custom)] = app
+                for handlers in (0, 1):
+                    if asgi:
+                        app = falcon.asgi.App(response_type=MyAResp, middleware=[ALateMW()]) if custom \
+                            else falcon.asgi.App(middleware=[ALateMW()])
+                        app.add_route('/', ARes())
+                    else:
+                        app = falcon.App(response_type=MyResp, middleware=[LateMW()]) if custom \
+                            else falcon.App(middleware=[LateMW()])
+                        app.add_route('/', Res())
+                    app.resp_options.media_handlers['application/x-fail'] = FailHandler()
+                    if handlers:
+                        # application error handlers answering a rendering failure
+                        app.add_error_handler(Exception, h_async if asgi else h_sync)
+                        app.add_error_handler(falcon.HTTPError, h_async if asgi else h_sync)
+                    self.apps[(asgi, custom, handlers)] = app
 
     def wire(self, c):
         falcon = self.falcon
@@ -481,8 +548,43 @@ class Env:
                 else:
                     steps.append([4])
             return [steps, c['method'] == 'HEAD', c['status'], stream, o(c['clen']), c['wrapper']]
+        disc = []
+        if c.get('disconnect') is not None:
+            disc = [c['disconnect']]
+            if c.get('sse_infinite') and c['sse']:
+                # the model gets the prefix the endless emitter produces up to the disconnect
+                evs = sse[0]
+                sse = [[evs[k % len(evs)] for k in range(c['disconnect'] + 2)]]
+        mf = c.get('media_fail')
+        ctype = c['ctype']
+        rec = [[0, 500], [], [], [], 0, []]
+        if mf:
+            media = b'?'                   # never serialized
+            if mf == 'ctype':
+                ctype = 'application/x-unknown'
+            elif mf == 'handler':
+                ctype = 'application/x-fail'
+            rc = c['recovery']
+            if rc == 'default':
+                # the framework's own handlers: 500 / 415 with the JSON error document
+                if mf == 'ctype':
+                    try:
+                        falcon.media.Handlers()._resolve('application/x-unknown', falcon.MEDIA_JSON)
+                    except falcon.HTTPError as e:
+                        err = e
+                else:
+                    err = falcon.HTTPInternalServerError()
+                rec = [[0, err.status_code], [], [err.to_json()], [], 0, ['application/json']]
+            else:
+                rtext = None if rc['text'] is None else rc['text'].encode('utf-8')
+                rmedia = None if rc['media'] is None else self.json.serialize(rc['media'], 'application/json')
+                # without a new content type the recovered media meets the same unresolvable /
+                # failing handler again
+                again = bool(rc['media_fails']) or (rc['media'] is not None and rc['ctype'] is None
+                                                   and mf in ('ctype', 'handler'))
+                rec = [rc['status'], o(rtext), o(rc['data']), o(rmedia), int(again), o(rc['ctype'])]
         return [c['method'] == 'HEAD', c['status'], o(text), o(c['data']), o(media), stream, sse,
-                o(c['clen']), o(c['ctype']), c['wrapper']]
+                o(c['clen']), o(ctype), c['wrapper'], disc, int(bool(mf)), rec]
 
 
 def header_pick(headers, name):
@@ -498,7 +600,7 @@ def run_cells(ctx, model, env, cells, label):
     asgi_jobs = []
     for n, c in enumerate(cells):
         env.cell, env.script = c, None
-        app = env.apps[(c['asgi'], c['custom_resp'])]
+        app = env.apps[(c['asgi'], c['custom_resp'], int(isinstance(c.get('recovery'), dict)))]
         if c['asgi']:
             obs.append(None)
             asgi_jobs.append(n)
@@ -517,9 +619,9 @@ def run_cells(ctx, model, env, cells, label):
         for n in asgi_jobs:
             c = cells[n]
             env.cell, env.script = c, None
-            app = env.apps[(1, c['custom_resp'])]
+            app = env.apps[(1, c['custom_resp'], int(isinstance(c.get('recovery'), dict)))]
             try:
-                events, raised = await serve_asgi(app, c['method'], c['fail_at'])
+                events, raised = await serve_asgi(app, c['method'], c['fail_at'], c.get('disconnect'))
                 sc = env.script
                 obs[n] = ['ok', events, raised, sc.reads if sc else 0, sc.closes if sc else 0]
             except ProtocolError as e:
@@ -702,6 +804,47 @@ def sse_fault_matrix():
                 yield dict(base, sse=list(evs), fail_at=[idx, fk])
 
 
+def sse_disconnect_matrix():
+    """finite and endless SSE emitters, http.disconnect delivered after k events"""
+    base = {'asgi': 1, 'method': 'GET', 'status': [0, 200], 'text': None, 'data': None, 'media': None, 'stream': None,
+            'clen': None, 'ctype': None, 'wrapper': 0, 'fail_at': None}
+    for evs in ([{'data': b'x'}], [{'data': b'x'}, None, {'text': 'y'}], [{'json': {'n': 1}}, {'data': b'2'}]):
+        for infinite in (0, 1):
+            for k in range(0, 6):
+                for custom in (0, 1):
+                    yield dict(base, sse=list(evs), sse_infinite=infinite, disconnect=k, custom_resp=custom)
+    yield dict(base, sse=[], sse_infinite=0, disconnect=0, custom_resp=0)
+
+
+RECOVERIES = ['default',
+              {'status': [0, 500], 'text': 'rendering failed', 'data': None, 'media': None, 'media_fails': 0, 'ctype': 'text/plain'},
+              {'status': [0, 503], 'text': None, 'data': b'raw error document', 'media': None, 'media_fails': 0, 'ctype': None},
+              {'status': [1, '500 Oops'], 'text': None, 'data': None, 'media': {'error': 'x' * 30}, 'media_fails': 0,
+               'ctype': 'application/json'},
+              {'status': [0, 500], 'text': None, 'data': None, 'media': {'again': 1}, 'media_fails': 1, 'ctype': 'application/json'},
+              {'status': [0, 500], 'text': None, 'data': None, 'media': {'again': 1}, 'media_fails': 0, 'ctype': None},
+              {'status': [0, 204], 'text': 'ignored', 'data': None, 'media': None, 'media_fails': 0, 'ctype': None},
+              {'status': [0, 500], 'text': None, 'data': None, 'media': None, 'media_fails': 0, 'ctype': None},
+              {'status': [0, 500], 'text': 'naïve ☃ text', 'data': b'data too', 'media': None, 'media_fails': 0, 'ctype': None}]
+
+
+def render_failure_matrix():
+    """render_body() raises (unserializable resp.media / no handler for the content type / the
+    handler raises) x how the error is answered (default handlers; application handlers via
+    text / data / media / nothing / media that fails again) x method x stream x interface"""
+    base = {'text': None, 'data': None, 'media': None, 'sse': None, 'clen': None, 'ctype': None, 'wrapper': 0,
+            'fail_at': None}
+    for mf in ('object', 'ctype', 'handler'):
+        for rc in RECOVERIES:
+            for method in ('GET', 'HEAD'):
+                for stream in (None, [1, [b'st', b'ream'], 0, True]):
+                    for asgi in (0, 1):
+                        for custom in (0, 1):
+                            for clen in (None, '999'):
+                                yield dict(base, asgi=asgi, method=method, status=[0, 200], stream=stream,
+                                           custom_resp=custom, media_fail=mf, recovery=rc, clen=clen)
+
+
 def status_matrix():
     """every status form of every generated code x method x one body source, both interfaces"""
     import random
@@ -734,6 +877,8 @@ def main(ctx):
     run_cells(ctx, model, env, list(status_matrix()), 'status-matrix')
     run_cells(ctx, model, env, list(fault_matrix()), 'fault-matrix')
     run_cells(ctx, model, env, list(sse_fault_matrix()), 'sse-fault-matrix')
+    run_cells(ctx, model, env, list(sse_disconnect_matrix()), 'sse-disconnect-matrix')
+    run_cells(ctx, model, env, list(render_failure_matrix()), 'render-failure-matrix')
     run_cells(ctx, model, env, list(step_matrix()), 'step-matrix')
     ns = 5000 if quick else 60000
     run_cells(ctx, model, env, [gen_step_cell(ctx.rng, ctx.rng.random() < 0.5) for _ in range(ns)], 'random-steps')
